@@ -37,7 +37,7 @@ theorem entry_y {mbX tnz lnz : Nat} {s : RSt} (h : Flags mbX tnz lnz s) (store :
     (hst : StRel 24 ov store s.1) : RowsInv (9 * mbX) 4 7 0 4 7 0 (tnz &&& 15) (lnz &&& 15) store ov s := by
   have b15 : ∀ w : Nat, w &&& 15 < 2 ^ (7 + 1) := fun w => Nat.lt_of_le_of_lt Nat.and_le_right (by decide)
   refine ⟨⟨fun k hk => ?_, fun j hj => by omega, b15 _⟩, ⟨fun k hk => ?_, fun j hj => by omega, b15 _⟩, hst,
-    by have := h.asz; omega, by have := h.lsz; omega⟩
+    by have := h.asz; omega, by have := h.lsz; omega, Or.inl rfl⟩
   · rw [bit_and15 _ _ (by omega), Nat.add_zero, h.t k (by omega)]
   · rw [bit_and15 _ _ (by omega), Nat.zero_add, h.l k (by omega)]
 
@@ -58,7 +58,7 @@ theorem entry_uv {mbX tnz lnz plane : Nat} (hpl : plane < 2) {s : RSt} (htb : tn
     interval_cases plane
     · show lnz / 16 < 64; omega
     · show lnz / 64 < 64; omega
-  refine ⟨⟨fun k hk => ?_, fun j hj => by omega, bt⟩, ⟨fun k hk => ?_, fun j hj => by omega, bl⟩, hst, by omega, by omega⟩
+  refine ⟨⟨fun k hk => ?_, fun j hj => by omega, bt⟩, ⟨fun k hk => ?_, fun j hj => by omega, bl⟩, hst, by omega, by omega, Or.inl rfl⟩
   · rw [bit_shr, Nat.add_zero, ht k (by omega)]
   · rw [bit_shr, Nat.add_zero, hl k (by omega)]
 
